@@ -782,7 +782,7 @@ def run(chk):
                       {k: c[k] for k in ('seed', 'kind', 'X', 'y', 'labels', 'cfg', 'data_range', 'ops')},
                       dict(why='property predicates %r failed for this case when it ran after other cases in the same process, but hold when it runs alone in a '
                                'fresh process: state is shared between Classification objects / across calls in one process' % (lost,)), failing_input=False)
-    judge(chk, cases, impl, c18.get_variant(chk) + get_cvariant(chk))
+    judge(chk, cases, impl, c18.get_variant(chk)[:2] + get_cvariant(chk))
 
 
 def judge(chk, cases, impl, variant):
@@ -972,7 +972,7 @@ def replay(chk, rep):
         for v in ent['viol']:
             bad += 1
             print('   PROPERTY PREDICATE FAILS:', v['kind'], v['sig'], v['why'])
-    m = run_model(19, [(2, model_case(c, r, c18.get_variant() + get_cvariant()))])[0]
+    m = run_model(19, [(2, model_case(c, r, c18.get_variant()[:2] + get_cvariant()))])[0]
     print('model:', str(m)[:3000])
     print('property predicate:', 'violated' if bad else 'holds')
     return 1 if bad else 0
